@@ -74,30 +74,42 @@ LEAF_KINDS = (["pure"] * 6 + ["read"] * 2 + ["write"] * 2 + ["unknown"] * 2 + ["
 NEST_KINDS = ["rec"] * 5 + ["rec_read", "pure_region", "sym_region", "unknown_region"]
 
 
-def gen_spec(rng: Any, max_depth: int = 2) -> list[dict]:
-    """structure first, operands afterwards (so that uses may point forwards and form cycles)"""
+QUIET_LEAF_KINDS = ["pure"] * 3 + ["read"] * 3 + ["alloc_res"] * 2
 
-    def gen_ops(depth: int, n: int, module_level: bool) -> list[dict]:
+
+def gen_spec(rng: Any, max_depth: int = 2) -> list[dict]:
+    """structure first, operands afterwards (so that uses may point forwards and form cycles).
+    Operations with regions get 1-3 regions; about half of the regions of an operation with recursive
+    effects are "quiet" (pure terminators, leaves that only read / allocate their own result, nested
+    operations quiet as well), so that whether the operation may go is regularly decided by ONE
+    operation in a later region, a later block or below a nested operation."""
+
+    def gen_ops(depth: int, n: int, module_level: bool, quiet: bool = False) -> list[dict]:
         ops = []
         for _ in range(n):
             if depth < max_depth and rng.random() < (0.45 if module_level else 0.25):
                 k = rng.choice(NEST_KINDS if not module_level else NEST_KINDS + ["sym_region", "unknown_region"])
-                regs = [gen_region(depth + 1) for _ in range(rng.choice([1, 1, 1, 2]))]
+                if quiet:
+                    k = rng.choice(["rec", "rec", "rec_read"])
+                nreg = rng.choice([1, 1, 2, 2, 3])
+                regs = [gen_region(depth + 1, quiet or (k in ("rec", "rec_read") and rng.random() < 0.5))
+                        for _ in range(nreg)]
                 ops.append({"k": k, "n": rng.choice([0, 1, 1, 2]), "u": [], "s": [], "r": regs})
             else:
-                k = rng.choice(LEAF_KINDS)
+                k = rng.choice(QUIET_LEAF_KINDS if quiet else LEAF_KINDS)
                 if k in ("sympure",) and not module_level and rng.random() < 0.7:
                     k = "pure"
                 ops.append({"k": k, "n": rng.choice([0, 1, 1, 1, 2]), "u": [], "s": [], "r": []})
         return ops
 
-    def gen_region(depth: int) -> list[list[dict]]:
+    def gen_region(depth: int, quiet: bool = False) -> list[list[dict]]:
         nb = rng.choice([1, 1, 1, 2, 3, 4])
         blocks = []
         for _b in range(nb):
-            ops = gen_ops(depth, rng.choice([0, 1, 2, 2, 3, 4]), False)
+            ops = gen_ops(depth, rng.choice([0, 1, 2, 2, 3, 4]), False, quiet)
             deg = rng.choice([0, 1, 1, 2]) if nb > 1 else rng.choice([0, 0, 0, 1])
-            term = {"k": rng.choice(["term", "term", "termpure", "unregterm", "unregterm"]), "n": 0, "u": [],
+            tk = "termpure" if quiet else rng.choice(["term", "term", "termpure", "unregterm", "unregterm"])
+            term = {"k": tk, "n": 0, "u": [],
                     "s": [rng.randrange(nb) for _ in range(deg)], "r": []}
             blocks.append(ops + [term])
         return blocks
@@ -245,4 +257,200 @@ def unregistered_branch_specs() -> list[list[dict]]:
     # mixed: a known terminator leads to a block that ends in an unregistered branch
     out.append([_op("unknown_region", r=[[[_op("term", s=[2])], [_op("write"), _op("term")],
                                           [_op("unregterm", s=[3])], [_op("free"), _op("termpure")]]])])
+    return out
+
+
+# --------------------------------------------------------------------------------------------
+# effect-position family: WHERE inside an operation with recursive effects an effect sits must not
+# matter.  `get_effects` of such an operation is the union over every region, every block of the
+# region and every operation of the block (and, through nested operations with recursive effects,
+# below).  One operation with recursive effects, unused result, regions of chained blocks ending in
+# pure terminators; a harmless ("quiet") item and an observable ("loud") item are placed at every
+# ordered pair of positions (region, block) – for the same block in both orders.
+# --------------------------------------------------------------------------------------------
+
+POS_QUIET_QUICK = ("none", "read", "alloc_res", "recread")
+POS_LOUD_QUICK = ("write", "free", "unknown", "recwrite")
+POS_QUIET_FULL = ("none", "pure", "read", "alloc_res", "recread")
+POS_LOUD_FULL = ("write", "free", "alloc", "rw", "unknown", "unreg", "sym", "recwrite")
+POS_SHAPES_QUICK = ((2, 2, 2),)
+POS_SHAPES_FULL = ((1,), (2,), (1, 1), (2, 1), (1, 2), (2, 2), (1, 1, 1), (2, 2, 2), (1, 1, 1, 1))
+
+
+def _pos_item(kind: str) -> list[dict]:
+    if kind == "none":
+        return []
+    if kind == "recwrite":      # the observable effect sits in the SECOND region of a nested operation
+        return [_op("rec", n=0, r=[[[_op("read", n=1), _op("termpure")]],
+                                   [[_op("write", n=1), _op("termpure")]]])]
+    if kind == "recread":       # harmless effects through a nested operation with recursive effects
+        return [_op("rec", n=1, r=[[[_op("termpure")]], [[_op("read", n=1), _op("termpure")]]])]
+    return [_op(kind, n=1)]
+
+
+def position_spec(outer: str, shape: tuple[int, ...], placed: list[tuple[tuple[int, int], str]],
+                  chain: bool = True) -> list[dict]:
+    """`outer` operation (unused result) with len(shape) regions, region r of shape[r] blocks; block b
+    branches to block b + 1 (`chain`; otherwise every block just ends: later blocks are unreachable);
+    `placed`: ((region, block), item kind) in the order the items appear inside their block"""
+    regs = []
+    for r, nb in enumerate(shape):
+        blocks = []
+        for b in range(nb):
+            ops: list[dict] = []
+            for (pr, pb), kind in placed:
+                if (pr, pb) == (r, b):
+                    ops.extend(_pos_item(kind))
+            ops.append(_op("termpure", s=[b + 1] if chain and b + 1 < nb else []))
+            blocks.append(ops)
+        regs.append(blocks)
+    return [_op(outer, n=1, r=regs)]
+
+
+def position_specs(full: bool) -> Iterator[dict]:
+    """cases {"spec": …, "pos": description}; enumeration order = size order"""
+    shapes = POS_SHAPES_FULL if full else POS_SHAPES_QUICK
+    quiets = POS_QUIET_FULL if full else POS_QUIET_QUICK
+    louds = POS_LOUD_FULL if full else POS_LOUD_QUICK
+    outers = ("rec", "rec_read") if full else ("rec",)
+    for shape in shapes:
+        poss = [(r, b) for r, nb in enumerate(shape) for b in range(nb)]
+        for outer in outers:
+            # controls: only harmless items (the operation is removable wherever they sit)
+            for q in quiets:
+                if q == "none":
+                    yield {"spec": position_spec(outer, shape, [])}
+                    continue
+                for p in poss:
+                    yield {"spec": position_spec(outer, shape, [(p, q)])}
+            for loud in louds:
+                for q in quiets:
+                    for pl in poss:
+                        if q == "none":
+                            yield {"spec": position_spec(outer, shape, [(pl, loud)])}
+                            continue
+                        for pq in poss:
+                            yield {"spec": position_spec(outer, shape, [(pq, q), (pl, loud)])}
+                            if pq == pl:
+                                yield {"spec": position_spec(outer, shape, [(pl, loud), (pq, q)])}
+    if full:
+        # the observable item in a block that is never executed (no branch leads to it): the operation
+        # is removable; and two harmless items before the observable one
+        for shape in ((2,), (1, 2), (2, 2), (2, 2, 2)):
+            poss = [(r, b) for r, nb in enumerate(shape) for b in range(nb)]
+            for loud in ("write", "unknown"):
+                for q in ("none", "read"):
+                    for pl in poss:
+                        for pq in poss:
+                            yield {"spec": position_spec("rec", shape, [(pq, q), (pl, loud)], chain=False)}
+        for shape in ((1, 1, 1), (2, 2, 2)):
+            poss = [(r, b) for r, nb in enumerate(shape) for b in range(nb)]
+            for loud in ("write", "unknown"):
+                for q1, q2 in (("read", "alloc_res"), ("read", "read"), ("alloc_res", "recread")):
+                    for p1, p2, pl in itertools.product(poss, repeat=3):
+                        yield {"spec": position_spec("rec", shape, [(p1, q1), (p2, q2), (pl, loud)])}
+
+
+def position_scope(full: bool) -> str:
+    shapes = POS_SHAPES_FULL if full else POS_SHAPES_QUICK
+    return (f"one operation with recursive effects and an unused result, region shapes (blocks per region) "
+            f"{[list(s) for s in shapes]}, blocks chained by pure terminators; harmless item "
+            f"{list(POS_QUIET_FULL if full else POS_QUIET_QUICK)} x observable item "
+            f"{list(POS_LOUD_FULL if full else POS_LOUD_QUICK)} at EVERY ordered pair of (region, block) positions "
+            f"(same block: both orders), plus the harmless item alone at every position"
+            + ("; also unchained blocks (observable item in a block that is never executed) and triples" if full else ""))
+
+
+# --------------------------------------------------------------------------------------------
+# stream C: the multi-region operations of the real dialects that declare RecursiveMemoryEffect
+# (scf.if, scf.while, scf.index_switch, affine.if; scf.for as the one-region control), with
+# memref.load / memref.store / external calls at every region position.  @main initialises two cells
+# of a buffer, runs the operation and returns the two cells: a store that disappears changes the
+# results, a call that disappears changes the effect log.
+# --------------------------------------------------------------------------------------------
+
+REGION_ITEMS_QUICK = ("none", "load", "store", "call")
+REGION_ITEMS_FULL = ("none", "pure", "load", "store", "call", "nest", "loadstore")
+
+
+def _item_text(kind: str, tag: str, ind: str) -> list[str]:
+    if kind == "none":
+        return []
+    if kind == "pure":
+        return [f"{ind}%p{tag} = arith.addi %v, %v : i32"]
+    if kind == "load":
+        return [f"{ind}%l{tag} = memref.load %m[%i0] : memref<4xi32>"]
+    if kind == "store":
+        return [f"{ind}memref.store %v, %m[%i1] : memref<4xi32>"]
+    if kind == "loadstore":
+        return [f"{ind}%l{tag} = memref.load %m[%i0] : memref<4xi32>",
+                f"{ind}memref.store %l{tag}, %m[%i1] : memref<4xi32>"]
+    if kind == "call":
+        return [f"{ind}func.call @ext_i32(%v) : (i32) -> ()"]
+    if kind == "nest":          # the store sits in the else-region of a nested scf.if whose then-region loads
+        return [f"{ind}scf.if %c {{", f"{ind}  %n{tag} = memref.load %m[%i0] : memref<4xi32>", f"{ind}}} else {{",
+                f"{ind}  memref.store %v, %m[%i0] : memref<4xi32>", f"{ind}}}"]
+    raise ValueError(kind)
+
+
+def region_op_text(op: str, items: tuple[str, ...]) -> dict:
+    """@main(%c: i1, %v: i32, %n: index) -> (i32, i32) around one region operation `op` whose k-th region
+    (or, for scf.for, k-th position of the body) holds items[k]"""
+    body: list[str] = []
+    it = [_item_text(k, str(j), "    ") for j, k in enumerate(items)]
+    if op == "scf.if":
+        body += ["  scf.if %c {", *it[0], "  } else {", *it[1], "  }"]
+    elif op == "scf.if.res":
+        body += ["  %q = scf.if %c -> (i32) {", *it[0], "    scf.yield %v : i32", "  } else {", *it[1],
+                 "    scf.yield %z : i32", "  }"]
+    elif op == "scf.while":
+        body += ["  %w = scf.while (%a = %z) : (i32) -> i32 {", *it[0],
+                 "    %cond = arith.cmpi slt, %a, %two : i32", "    scf.condition(%cond) %a : i32",
+                 "  } do {", "  ^bb0(%b: i32):", *it[1], "    %nx = arith.addi %b, %one : i32",
+                 "    scf.yield %nx : i32", "  }"]
+    elif op == "scf.for":
+        body += ["  scf.for %k = %i0 to %i2 step %i1 {", *[l for x in it for l in x], "  }"]
+    elif op == "scf.index_switch":
+        # regions in the order of the operation: default first, then the cases
+        body += ["  scf.index_switch %n", "  case 0 {", *it[1], "    scf.yield", "  }", "  case 1 {", *it[2],
+                 "    scf.yield", "  }", "  default {", *it[0], "    scf.yield", "  }"]
+    elif op == "affine.if":
+        r = ["({\n" + "\n".join([*x, '    "affine.yield"() : () -> ()']) + "\n  }" for x in it]
+        r = [r[0], r[1][1:]]
+        body += ['  "affine.if"(%n) <{condition = affine_set<(d0) : (d0 - 1 >= 0)>}> ' + ", ".join(r)
+                 + ") : (index) -> ()"]
+    else:
+        raise ValueError(op)
+    text = "\n".join([
+        "builtin.module {",
+        "func.func @main(%c: i1, %v: i32, %n: index) -> (i32, i32) {",
+        "  %m = memref.alloc() : memref<4xi32>",
+        "  %i0 = arith.constant 0 : index", "  %i1 = arith.constant 1 : index", "  %i2 = arith.constant 2 : index",
+        "  %z = arith.constant 0 : i32", "  %one = arith.constant 1 : i32", "  %two = arith.constant 2 : i32",
+        "  memref.store %one, %m[%i0] : memref<4xi32>", "  memref.store %two, %m[%i1] : memref<4xi32>",
+        *body,
+        "  %r0 = memref.load %m[%i0] : memref<4xi32>", "  %r1 = memref.load %m[%i1] : memref<4xi32>",
+        "  func.return %r0, %r1 : i32, i32", "}",
+        "func.func private @ext_i32(i32) -> ()", "}", ""])
+    return {"mlir": text, "arg_types": ["i1", "i32", "index"], "ret_types": ["i32", "i32"],
+            "inputs": [[1, 7, 0], [0, -3, 1], [1, 40, 5]], "region_op": op, "items": list(items)}
+
+
+REGION_OPS_SEM = {"scf.if": 2, "scf.if.res": 2, "scf.while": 2, "scf.for": 2}
+REGION_OPS_NOSEM = {"scf.index_switch": 3, "affine.if": 2}
+
+
+def region_op_texts(full: bool, with_sem: bool) -> list[dict]:
+    """every assignment of an item kind to every region (position) of every operation; the quick tier
+    keeps scf.if / scf.while (Sem) and scf.index_switch over 3 kinds / affine.if (structure only)"""
+    out = []
+    for op, n in (REGION_OPS_SEM if with_sem else REGION_OPS_NOSEM).items():
+        kinds = REGION_ITEMS_FULL if full else REGION_ITEMS_QUICK
+        if not full:
+            if op in ("scf.if.res", "scf.for"):
+                continue
+            if op == "scf.index_switch":
+                kinds = ("none", "load", "store")
+        for items in itertools.product(kinds, repeat=n):
+            out.append(region_op_text(op, items))
     return out
